@@ -379,6 +379,11 @@ def judge(case, call, rec, faulted):
                 out.append(core.violation("refused_feasible", "duplicate search raised %s although dropping duplicates leaves a balanced reaction" % rec["outcome"], dict(sigbase, exc=rec["outcome"][6:])))
             return out
         t = truth_for(case, reac, prod)
+        if t["feasible"] and mode == "true" and t["d"] >= 2:
+            # the statement promises an answer for single rays (all modes) and for the smallest-integers mode;
+            # a refusal of the parametric mode on a multi-dimensional cone is observed, not asserted
+            rec["probe"] = "mode_true_refused_feasible_cone"
+            return out
         if t["feasible"] and mode == "false" and t["d"] >= 2:
             # documented: underdetermined=False refuses reactions whose solutions are not a single ray
             if not rec.get("exc_is_valueerror"):
@@ -602,6 +607,8 @@ def execute(case):
         bump("external_invocations", rec["n_inv"])
         if rec["leaked"]:
             bump("probe:tmp_files_leaked", rec["leaked"])
+        if rec.get("probe"):
+            bump("probe:" + rec["probe"])
         for f in faults:
             bump("fault_cfg:" + f["kind"])
         for k in rec["fired"]:
